@@ -68,6 +68,7 @@ func init() {
 		v := fr.declRange(a[0].(string), sort, new(big.Rat).SetInt(lo), new(big.Rat).SetInt(hi))
 		if fr.ideal() {
 			fr.i.eng.intTerms = append(fr.i.eng.intTerms, v)
+			fr.i.eng.intVars = append(fr.i.eng.intVars, v)
 		}
 		return IntV{v}
 	})
@@ -264,6 +265,14 @@ func init() {
 	reg(N+"NearDec", func(fr *frame, a []value) value {
 		c := fr.ctx()
 		x, y := decT(a[0]), decT(a[1])
+		return boolVal(c, c.Le(c.Abs(c.Sub(x, y)), decT(a[2])))
+	})
+	reg(N+"EqIdeal", func(fr *frame, a []value) value {
+		c := fr.ctx()
+		x, y := decT(a[0]), decT(a[1])
+		if fr.ideal() {
+			return boolVal(c, c.Eq(x, y))
+		}
 		return boolVal(c, c.Le(c.Abs(c.Sub(x, y)), decT(a[2])))
 	})
 	reg(N+"LeqDec", func(fr *frame, a []value) value {
